@@ -243,6 +243,12 @@ func sgRegisterCodecs(me *MediaEngine, cfg sgPeerCfg) {
 		_ = me.RegisterCodec(RTPCodecParameters{RTPCodecCapability: RTPCodecCapability{MimeType: MimeTypeH264, ClockRate: 90000, SDPFmtpLine: "level-asymmetry-allowed=1;packetization-mode=0;profile-level-id=640032", RTCPFeedback: fb}, PayloadType: next()}, RTPCodecTypeVideo)
 		_ = me.RegisterCodec(RTPCodecParameters{RTPCodecCapability: RTPCodecCapability{MimeType: MimeTypeVP9, ClockRate: 90000, SDPFmtpLine: "profile-id=0"}, PayloadType: next()}, RTPCodecTypeVideo)
 		_ = me.RegisterCodec(RTPCodecParameters{RTPCodecCapability: RTPCodecCapability{MimeType: MimeTypeRTX, ClockRate: 90000, SDPFmtpLine: "apt=127"}, PayloadType: next()}, RTPCodecTypeVideo)
+	case 5: // codecs registered without clock rate / channels (the matcher takes 0 as "the codec's default")
+		_ = me.RegisterCodec(RTPCodecParameters{RTPCodecCapability: RTPCodecCapability{MimeType: MimeTypeOpus}, PayloadType: next()}, RTPCodecTypeAudio)
+		_ = me.RegisterCodec(RTPCodecParameters{RTPCodecCapability: RTPCodecCapability{MimeType: MimeTypePCMU, ClockRate: 8000}, PayloadType: 0}, RTPCodecTypeAudio)
+		v := next()
+		_ = me.RegisterCodec(RTPCodecParameters{RTPCodecCapability: RTPCodecCapability{MimeType: MimeTypeVP8, RTCPFeedback: fb}, PayloadType: v}, RTPCodecTypeVideo)
+		_ = me.RegisterCodec(RTPCodecParameters{RTPCodecCapability: RTPCodecCapability{MimeType: MimeTypeRTX, ClockRate: 90000, SDPFmtpLine: fmt.Sprintf("apt=%d", v)}, PayloadType: next()}, RTPCodecTypeVideo)
 	case 4: // vp8 + rtx + flexfec, h264 + rtx
 		_ = me.RegisterCodec(RTPCodecParameters{RTPCodecCapability: RTPCodecCapability{MimeType: MimeTypeOpus, ClockRate: 48000, Channels: 2}, PayloadType: next()}, RTPCodecTypeAudio)
 		v := next()
@@ -416,11 +422,14 @@ func (r *sgRun) exec(i int, op sgOp) {
 		// A: type, B: 1 = empty SDP else the peer's own last local description text (nonsense but parsable)
 		rec.Kind, rec.Side = "setremote", "remote"
 		d := SessionDescription{Type: sgTypeOf(op.A)}
-		if ps.partner == "foreign" && d.Type != SDPTypeRollback {
+		if ps.partner == "foreign" && d.Type != SDPTypeRollback && op.B != 2 {
 			skip = true
 			break
 		}
-		if op.B != 1 {
+		if op.B == 2 {
+			d.SDP = "v=0\r\nthis is not sdp\r\n"
+			rec.Tamper = "unparsable"
+		} else if op.B != 1 {
 			if ld := r.peers[1-op.Peer].p.pc.LocalDescription(); ld != nil {
 				d.SDP = ld.SDP
 			} else if ld := pc.LocalDescription(); ld != nil {
@@ -582,6 +591,18 @@ func (r *sgRun) exec(i int, op sgOp) {
 			for _, k := range rr.perm(len(all)) {
 				if rr.Bool(0.6) {
 					sel = append(sel, all[k])
+				}
+			}
+		}
+		for k := range sel {
+			// (an application names complete codecs in its preferences, also when the engine was given
+			// codecs without clock rate / channels)
+			if sel[k].ClockRate == 0 {
+				switch {
+				case strings.EqualFold(sel[k].MimeType, MimeTypeOpus):
+					sel[k].ClockRate, sel[k].Channels = 48000, 2
+				case strings.HasPrefix(strings.ToLower(sel[k].MimeType), "video/"):
+					sel[k].ClockRate = 90000
 				}
 			}
 		}
